@@ -120,8 +120,18 @@ def rows_equal(a: List[List[Any]], b: List[List[Any]]) -> bool:
     return [[norm(v) for v in r] for r in a] == [[norm(v) for v in r] for r in b]
 
 
+DIV_ZERO_SKIPPED = [0]   # events left undecided by the rule below (reported in the evidence of the checks that compare)
+
+
 def compare_event(job_rows, job_fault: Optional[str], ref) -> Optional[str]:
     """None if the event's outcome agrees with the reference, else a description."""
+    # Division by zero is a fault in the model only because its numbers are exact rationals; in C++ a floating division
+    # by zero is defined (inf / nan) and fails nothing.  An event on which only ONE side divides by zero (the other side
+    # did not evaluate that division at all: a later element behind First, a predicate on elements after the first
+    # passing one) is outside the value domain both sides share, and decides nothing.
+    if (ref[0] == "fault" and ref[1] == "div_zero" and job_fault is None) or (job_fault == "div_zero" and ref[0] != "fault"):
+        DIV_ZERO_SKIPPED[0] += 1
+        return None
     if ref[0] == "fault":
         if job_fault is None:
             return f"query is undefined on this event ({ref[1]}) but the job wrote {len(job_rows)} row(s) and did not fail"
